@@ -13,7 +13,8 @@
 (*   be, le    to_be_bytes() / to_le_bytes(), flattened (nb bytes per entry)  *)
 (*   beq    1 iff C::from(Raw::from(c)) == c (the library's PartialEq)        *)
 (*   braw   into_storage() of C::from(Raw::from(c))                           *)
-(* rawrow: the raw values base .. base+n-1 of the raw type (all BITS bits):   *)
+(* rawrow: Raw::from_u32(x) for x = base .. base+n-1 (all values of the raw    *)
+(*   type, and arguments beyond its range):                                   *)
 (*   rt     raw -> colour -> raw          rt2  the same trip applied to rt    *)
 (*   c1,c2,c3  channels of the colour made from the raw value                 *)
 EXTENDS EGColor
@@ -51,7 +52,9 @@ RowFails(e) ==
 
 RawRowFails(e) ==
   LET t == Types[e.ty]
-      X(k)      == e.base + k - 1
+      \* RawData::from_u32 uses only the least significant BITS_PER_PIXEL bits of its argument (documented), so
+      \* arguments beyond the raw type's range stand for their low bits
+      X(k)      == (e.base + k - 1) % (2 ^ t.raw)
       \* raw -> colour -> raw only clears the unused bits
       MaskOK(k) == e.rt[k] = ClearUnused(t, X(k))
       \* ... hence it is idempotent
@@ -63,7 +66,7 @@ RawRowFails(e) ==
       AllOK(k)  == MaskOK(k) /\ IdemOK(k) /\ ChanOK(k) /\ BackOK(k)
       K == 1..e.n
   IN
-  IF e.base + e.n > 2 ^ t.raw THEN [codes |-> {"malformed_rawrow"}, k |-> 0]
+  IF e.base < 0 \/ e.n < 0 \/ e.base > 2147483647 - e.n THEN [codes |-> {"malformed_rawrow"}, k |-> 0]
   ELSE IF \A k \in K : AllOK(k) THEN [codes |-> {}, k |-> 0]
   ELSE [codes |-> (IF \A k \in K : MaskOK(k) THEN {} ELSE {"raw_roundtrip"})
              \cup (IF \A k \in K : IdemOK(k) THEN {} ELSE {"raw_not_idempotent"})
